@@ -8,14 +8,19 @@ for d in sorted(glob.glob("/verif/seeded/*/")):
     m = json.load(open(mp))
     name = os.path.basename(d.rstrip("/"))
     res = []
+    notes = [c for c in m.get("checks_run", []) if ":exit" not in c]
     for c in m.get("checks_run", []):
+        if ":exit" not in c:
+            continue
         pid, ex = c.split(":exit")
         log = os.path.join(d, f"check_{pid}.log")
         obl = ""
         if os.path.exists(log):
             mm = re.findall(r"obligation=(\S+)", open(log).read())
             obl = ", ".join(sorted(set(mm))[:3])
-        res.append(f"{pid}: {'**VIOLATION**' if ex == '1' else ('held (missed)' if ex == '0' else 'inconclusive (exit 2)')}" + (f" [{obl}]" if obl else ""))
+        clean = " (its counterexample does not reproduce on the unchanged tree)" if f"{pid}:cex-clean-on-unchanged-tree" in notes else (
+            " (**ITS COUNTEREXAMPLE ALSO REPRODUCES ON THE UNCHANGED TREE**)" if f"{pid}:cex-reproduces-on-clean-tree" in notes else "")
+        res.append(f"{pid}: {'**VIOLATION**' if ex == '1' else ('held (missed)' if ex == '0' else 'inconclusive (exit 2)')}" + (f" [{obl}]" if obl else "") + clean)
     conf = m.get("confirmed", {})
     rows.append(f"| {name} | {m.get('property')} | {(m.get('summary') or '').replace('|', '/')[:260]} | {(m.get('needs') or '').replace('|', '/')[:260]} | {conf.get('tests_with_change', '')[:12]}; demo {conf.get('demo_exit_with_change')}/{conf.get('demo_exit_without_change')} | {'<br>'.join(res)} |")
 hdr = """# Seeded changes
